@@ -4,9 +4,11 @@ from lib.emit import emit_stream
 CHECK = Check(
     "C11",
     streams=[emit_stream("c11", drv="c11")],
-    rule=("generated inspectors of the model's emit units x value variants (quick: the second and the last variant per unit) x every "
-          "one-position mutation (any kind of difference, pointer nil-ness included) x option sets naming the field of the mutated "
-          "position / its top ancestor / a sibling / nothing, as Exclude, as Filter (with and without the ancestors), both at once, "
+    rule=("generated inspectors of the model's emit units x value variants (quick: per unit the variant with the most mutation positions - every "
+          "collection populated, so every field of every element of every collection-of-structs field, named or literal-typed, is "
+          "mutated - and the second variant) x every one-position mutation (any kind of difference, pointer nil-ness included) x "
+          "option sets naming the dotted field of the mutated position / its top ancestor / a sibling (element) field / the bare last "
+          "name (an unrelated root-level key of the same name) / nothing, as Exclude, as Filter (with and without the ancestors), both at once, "
           "empty and nil options, and for float shifts Precision above (0.1) / below (1e-5) the gap and a negative Precision; "
           "DeepEqualWithOptions in both argument orders; plus inspector.DEQMustCheck over {nil, empty, Exclude, Filter, both, "
           "precision only} x {listed, unlisted, empty, dotted} paths and EqualFloat64/32 exactly at, just inside and just outside the "
